@@ -31,6 +31,11 @@ namespace Upnp.C11
 open Upnp PyDict Upnp.C09 Upnp.C10
 variable [FloatOracle]
 
+/-- **The model's atomic events are the code's** (audit C11-1): no suspension point in `handle_notify`, none in
+    `async_subscribe` between registering the SID and returning other than the replay's own `handle_notify` calls —
+    so no NOTIFY can be processed between "SID registered" and "backlog replayed" and overtake an early one. -/
+theorem atomicity_pinned : atomicOk = true := by decide
+
 /-- the driver's diagnostic walk is the judge: a trace is accepted iff no observation is reported -/
 theorem ok_iff_no_first_bad (decls : List (List Var)) (js : JS) (l : List Obs) (i : Nat) :
     okFrom decls js l = (firstBadFrom decls js l i).isNone := by
